@@ -76,3 +76,10 @@ Definition ok17 (x : case17) : bool :=
       else spec_probe_ok c (fold_left spec_append (q_queue x) (spec_append spec0 (q_init x))) (q_final x)).
 
 Definition chk17 (x : case17) : bool * bool * N := (agree17 x, ok17 x, 0).
+
+(** the gate-driven tail-side DeleteRange / Append races (Oracle/C17Del.v) are cases of their
+    own type: a case of C17 is [X17 (Case17 ...)] (the modes above) or [D17 (DCase17 ...)] *)
+From GH Require Import Model.StoreDelConc Oracle.C17Del.
+Inductive xcase17 := X17 (x : case17) | D17 (d : dcase17).
+Definition chk17x (x : xcase17) : bool * bool * N :=
+  match x with X17 y => chk17 y | D17 d => chk17d d end.
